@@ -56,14 +56,17 @@ func (r *Rule) inflected(s string) string {
 	if loc := r.compiledIrregular.FindStringSubmatchIndex(s); len(loc) >= 6 {
 		word := s[loc[4]:loc[5]]
 
-		var buf strings.Builder
+		// (?i) also folds U+017F and U+212A to s and k, such words are not in the map
+		if replacement, ok := r.irregularMap[strings.ToLower(word)]; ok {
+			var buf strings.Builder
 
-		// keep everything before the matched word and the case of its first letter
-		buf.WriteString(s[:loc[4]])
-		buf.WriteString(word[0:1])
-		buf.WriteString(r.irregularMap[strings.ToLower(word)][1:])
+			// keep everything before the matched word and the case of its first letter
+			buf.WriteString(s[:loc[4]])
+			buf.WriteString(word[0:1])
+			buf.WriteString(replacement[1:])
 
-		return buf.String()
+			return buf.String()
+		}
 	}
 
 	if r.compiledUninflected.MatchString(s) {
